@@ -548,6 +548,11 @@ structure TheirRpc where
   into `kit.Version`; neither the bucket check nor `Verify` reads it – in particular the lease duration and the channel
   type of an old-version order are taken from the message as they are. -/
   version : Nat := 6
+  /-- SEC encoding of `NodePub` / `MultiSigKey` on the wire (0 compressed, 1 uncompressed, 2 hybrid).
+  `ParseRPCServerOrder` parses either key and stores `SerializeCompressed()` of the parsed point, so whatever the
+  encoding the batch carries the canonical compressed keys – `nodeKey` / `multiSigKey` above. -/
+  nodeKeyEnc : Nat := 0
+  multiSigKeyEnc : Nat := 0
 deriving Repr, DecidableEq
 
 structure MatchedRpc where
